@@ -58,6 +58,25 @@ func ReplayConc(path string) int {
 		}
 		return 1
 	}
+	var rr struct {
+		Replay struct {
+			Kind string                `json:"kind"`
+			Case pimport.ReusedRefCase `json:"case"`
+		} `json:"replay"`
+	}
+	if err := json.Unmarshal(b, &rr); err == nil && rr.Replay.Kind == "reused-reference-import" {
+		n, err := pimport.ReplayReusedReference(rr.Replay.Case)
+		if err != nil {
+			fmt.Println("ENGINE-ERROR", err)
+			return 2
+		}
+		if n == 0 {
+			fmt.Println("replay: oracle silent")
+			return 0
+		}
+		fmt.Printf("replay: %d finding(s), printed above\n", n)
+		return 1
+	}
 	var di struct {
 		Replay struct {
 			Kind string        `json:"kind"`
